@@ -20,6 +20,7 @@ class VFS:
     docs = []        # Documenter constructions: (file, title, module_name)
     fail_on = None   # file whose Documenter.process raises (C06.d)
     rel_verdict2 = False
+    links = {}       # symbolic links to directories: link path -> target path (both absolute); only the input path itself is ever a link
     rel_verdict = False   # verdict of the matcher for any path that is NOT absolute (CMinx's contract is to ask with absolute paths;
                           # what a pattern makes of a cwd-relative spelling is arbitrary)
 
@@ -28,14 +29,23 @@ class VFS:
         cls.dirs, cls.excluded, cls.cwd = dirs, excluded, cwd
         cls.writes, cls.mkdirs, cls.prints, cls.asked, cls.docs = [], [], [], [], []
         cls.fail_on = None
+        cls.links = {}
 
 
 def _abs(p):
     return pp.normpath(pp.join(VFS.cwd, p))
 
 
+def _res(k):
+    """resolve a leading symbolic link (what the OS does when it opens the path)"""
+    for l, t in VFS.links.items():
+        if k == l or k.startswith(l + "/"):
+            return t + k[len(l):]
+    return k
+
+
 def v_walk(top, topdown=True, followlinks=False):
-    key = _abs(top)
+    key = _res(_abs(top))
     subdirs, files = VFS.dirs[key]
     subdirs = list(subdirs)
     files = list(files)
@@ -58,18 +68,18 @@ class Ent:
 
 
 def v_scandir(p):
-    key = _abs(p)
+    key = _res(_abs(p))
     subdirs, files = VFS.dirs[key]
     return [Ent(pp.join(p, d), False) for d in subdirs] + [Ent(pp.join(p, f), True) for f in files]
 
 
 def v_isdir(p):
-    k = _abs(p)
+    k = _res(_abs(p))
     return k in VFS.dirs or k in VFS.mkdirs
 
 
 def v_isfile(p):
-    k = _abs(p)
+    k = _res(_abs(p))
     d, f = pp.split(k)
     return d in VFS.dirs and f in VFS.dirs[d][1]
 
@@ -98,6 +108,8 @@ class _PathShimCls:
     PURE = ("join", "basename", "normpath", "dirname", "split", "splitext", "isabs", "commonprefix", "commonpath", "sep", "curdir", "pardir", "extsep")
     relpath = staticmethod(lambda p, start=None: pp.relpath(_abs(p), _abs(start if start is not None else ".")))
     abspath = staticmethod(_abs)
+    realpath = staticmethod(lambda p, strict=False: _res(_abs(p)))
+    islink = staticmethod(lambda p: _abs(p) in VFS.links)
     isdir = staticmethod(v_isdir)
     isfile = staticmethod(v_isfile)
     exists = staticmethod(v_exists)
